@@ -633,4 +633,38 @@ def collectGenerics : List (Nat × Node) → List (Nat × Bool × List Nat) → 
 def emittedGenerics (gs : List (Nat × Bool × List Nat)) : List (Nat × List Nat) :=
   (gs.filter (fun g => g.2.1 || g.2.2.length > 1)).map (fun g => (g.1, g.2.2))
 
+/-! ### `generic_function`: which C function each fortran_generic clone calls -/
+
+/-- `get_order`: one code per parameter, 0 `-` (ignored), 1 `s` scalar, 2 `a` array.  A parameter is
+    (typemap sgroup is native, rank with 0 for none).  With a mold (the C function's order) the
+    result stops at the mold's length and keeps the mold's `-`. -/
+def getOrder : List (Bool × Nat) → Option (List Nat) → List Nat
+  | [], _ => []
+  | (nat, rk) :: ps, none => (if !nat then 0 else if rk = 0 then 1 else 2) :: getOrder ps none
+  | _ :: _, some [] => []
+  | (nat, rk) :: ps, some (m :: ms) =>
+    (if m = 0 then 0 else if !nat then 0 else if rk = 0 then 1 else 2) :: getOrder ps (some ms)
+
+/-- the loop over `node.fortran_generic`: every entry appends a Fortran clone (index `next`); when
+    its scalar/array order is not yet in `cvariants` a C clone is appended right after it and
+    recorded.  Result: the `_PTR_F_C_index` of each Fortran clone, in order. -/
+def genericLoop : List (List Nat) → List (List Nat × Nat) → Nat → List Nat
+  | [], _, _ => []
+  | o :: os, tab, next =>
+    match assocGetL tab o with
+    | some t => t :: genericLoop os tab (next + 1)
+    | none => (next + 1) :: genericLoop os ((o, next + 1) :: tab) (next + 2)
+where
+  assocGetL (tab : List (List Nat × Nat)) (o : List Nat) : Option Nat :=
+    match tab with
+    | [] => none
+    | (k, v) :: r => if k == o then some v else assocGetL r o
+
+/-- `cvariants = {corder: node._function_index}` is created afresh for every function: the routing
+    of a function's clones is a function of that function alone (its index, its parameters, its
+    fortran_generic list, the length of `function_index` when it is processed) -/
+def genericTargets (self next : Nat) (cparams : List (Bool × Nat)) (generics : List (List (Bool × Nat))) : List Nat :=
+  let corder := getOrder cparams none
+  genericLoop (generics.map fun g => getOrder g (some corder)) [(corder, self)] next
+
 end Shroud.WrapF
